@@ -98,9 +98,11 @@ def family_alphabets(tier):
                     call("iA", [0.1, 0.4, 0.6, 0.8, 0.95], 0.1), call("iA", [0.1, 0.4, 0.6, 0.8, 0.95], 0.2), call("iA", [0.3, 0.7], 0.1),
                     call("iB", [0.1, 0.4, 0.6, 0.8, 0.95], 0.1), call("eA", [0.1, 0.4, 0.6, 0.8, 0.95], 0.1),
                     call("eA", [0.3, 0.7], 0.2)]
-    F["sedov"] = [new("dA", "sedov.sedov.Sedov"), new("dB", "sedov.sedov.Sedov", geometry=2, gamma=1.2, omega=1.5, rho0=2.5, eblast=3.0),
+    # dB is a vacuum-type problem (omega above the singular value) so the per-call vacuum-boundary attributes are in play;
+    # it is called at two times with points between the two vacuum radii (added after the seeded change S-C06-2)
+    F["sedov"] = [new("dA", "sedov.sedov.Sedov"), new("dB", "sedov.sedov.Sedov", geometry=2, gamma=1.4, omega=1.7, rho0=2.5, eblast=3.0),
                   call("dA", [0.1, 0.5, 0.9, 1.2], 1.0), call("dA", [0.1, 0.5, 0.9, 1.2], 0.3), call("dA", [0.2, 0.5, 3.0], 1.0),
-                  call("dB", [0.1, 0.5, 0.9, 1.2], 1.0)]
+                  call("dB", [0.03, 0.07, 0.11, 0.2, 0.5, 0.9, 1.2], 1.0), call("dB", [0.03, 0.07, 0.11, 0.2, 0.5, 0.9, 1.2], 0.5)]
     F["gridded"] = [new("mA", "mader.timmes.Mader"), new("mB", "mader.timmes.Mader", gamma=2.0, u_piston=2.0e4),
                     new("zA", "sdrz.sdrz.SteadyDetonationReactionZone"), new("pA", "ep_piston.ep_piston.EPpiston"),
                     call("mA", [0.5, 1.5, 2.5, 3.5, 4.5], 6.25e-6), call("mA", [0.5, 1.5, 2.5, 3.5, 4.5], 3.0e-6),
